@@ -1,7 +1,7 @@
 (* Correspondence runner for C02 (StepMania reading).  A case = a .sm text and what SMMapSet.read returned.
    cmpb: the tempo list is compared structurally only on the float-exact tempo stream (reseat decides on
    remainders that are exactly 0 in rational arithmetic and +-1e-16 in binary64 otherwise).
-   corr: the reader model (pinned behaviour, or with the proposed repair of the missing-#STOPS crash) returns the same;
+   corr: the reader model (the current variant only: a regression to an OLD behaviour is a divergence) returns the same;
    spec: on texts in the domain the reference interpreter sm_denote is matched by the implementation's result;
    wf:   the text is in the theorem's domain whenever the generator says it should be. *)
 From Coq Require Import String ZArith QArith Qround Qabs List Bool.
@@ -23,7 +23,7 @@ Definition check (c : c02case) : verdict :=
   | C02Read dom cmpb tol lines idx out =>
       let txt := mk_text lines idx in
       let wf := c02_wf txt in
-      {| corr_ok := first_true (fun v => opt_set_close cmpb tol (sm_read conf v txt) out) [pinned; repaired];
+      {| corr_ok := opt_set_close cmpb tol (sm_read conf current txt) out;
          spec_ok := if wf then match sm_denote txt, out with
                                | Some d, Some o => read_spec tol d o
                                | _, _ => false end else true;
